@@ -195,3 +195,27 @@ PROPS['C12']['units'] = PROPS['C12']['units'] + [cli.MainJsonN]
 PROPS['C08']['units'] = PROPS['C08']['units'] + list(pelcore.C08_UNITS)
 # C09 anchors the top-level-only walks too: getFileList and main's --json loop (sub-directories contribute nothing)
 PROPS['C09']['units'] = PROPS['C09']['units'] + [cli.GetFileListN, cli.GetFileList, cli.MainJsonN]
+# C04: what is shown for a text / JSON payload goes through the column alignment: string values are never altered by it
+PROPS['C04']['extra'] = list(PROPS['C04'].get('extra', [])) + [pretty.pretty_backend]
+# C11: deletePELFromPELId relies on processId's contract (a wrong-length id never reaches the name match)
+PROPS['C11']['units'] = PROPS['C11']['units'] + [cli.ProcessId]
+
+
+# ------------------------------------------------------------------ callee contracts a property leans on are proved in that property too
+# (only the part of the callee's behaviour the property depends on, so that a change elsewhere in the callee does not raise
+# an alarm for a property that still holds)
+from contracts import hexd as _hx, select as _sel
+# what an in-range DataStream read returns / where it leaves the cursor, for the integer widths the property's decoders read
+for _p, _w in (('C01', (1, 2, 4)), ('C02', (1, 2, 4, 8)), ('C03', (1, 2, 4)), ('C04', (1, 2)), ('C14', (2, 4)), ('C15', (1, 2, 4)),
+               ('C16', (1, 2)), ('C18', ()), ('C20', (1, 2, 4))):
+    PROPS[_p]['units'] = PROPS[_p]['units'] + [u for u in ds.value_units(_w) if u not in PROPS[_p]['units']]
+for _p in ('C01', 'C04', 'C15', 'C16'):     # "shown / preserved as a hex dump": the dump itself
+    PROPS[_p]['units'] = PROPS[_p]['units'] + [u for u in (_hx.HexdumpDefault,) if u not in PROPS[_p]['units']]
+for _p in ('C03', 'C04'):                  # the 'Created by' value these sections display
+    PROPS[_p]['units'] = PROPS[_p]['units'] + [u for u in (_h.DisplayCompID,) if u not in PROPS[_p]['units']]
+# C10: look-ups find hidden / non-serviceable PELs without extra options: considerPEL's look-up exemption
+PROPS['C10']['units'] = PROPS['C10']['units'] + [u for u in (_sel.ConsiderPELLookup,) if u not in PROPS['C10']['units']]
+_meta.apply(PROPS)
+# the body behind the per-file contract used by the any-size --list unit
+for _p in ('C08', 'C09'):
+    PROPS[_p]['units'] = PROPS[_p]['units'] + [cli.ExtractAndSummarize]
